@@ -73,7 +73,7 @@ fn step<const FILL: usize, const N: usize>() {
  "bound": "one complete 23-byte record followed by {0}-23 trailing bytes, all contents symbolic except data size = {1}",
  "desc": "field extraction per PROTOCOL.md 7.3: id, 16-byte zero-padded destination, seq, ttl, data size; IPv4 destination -> ICMP echo, IPv6 -> ICMPv6 echo request; data has exactly the requested size",
  "encodes": ["http_icmp_codec::Decoder::decode_chunk", "net_utils::get_fixed_size_ip"],
- "quick": "[(23,0),(25,3)]", "thorough": "[(23,1),(24,8),(26,16)]"}
+ "quick": "[(23,0),(25,3),(23,32768),(23,65535)]", "thorough": "[(23,1),(24,8),(26,16)]"}
 @*/
 fn decoder_fields<const TOTAL: usize, const SIZE: u16>() {
     let extra = TOTAL - ICMPPKT_REQ_SIZE;
